@@ -6,6 +6,7 @@ import SparseV.Model.Elemwise
 import SparseV.Lemmas.Elemwise2
 import SparseV.Lemmas.ElemwiseN
 import SparseV.Lemmas.BroadcastSorted
+import SparseV.Lemmas.Gen.Bcast
 namespace SparseV.C01
 open SparseV
 
@@ -18,14 +19,14 @@ rule has a result, and then yields that result. -/
 theorem bcast_pair_spec (l1 l2 : Int) :
     (Gen.bcastOk l1 l2 false = true ↔ (specPair l1 l2).isSome) ∧
     (Gen.bcastOk l1 l2 false = true → specPair l1 l2 = some (Gen.bcastDim l1 l2)) := by
-  simp only [Gen.bcastOk, Gen.bcastDim, specPair, decide_eq_true_eq]
+  simp only [Gen.bcastOk_iff, Gen.bcastDim_eq, Ref.bcastDim, specPair]
   by_cases h1 : l1 = l2 <;> by_cases h2 : l1 = 1 <;> by_cases h3 : l2 = 1 <;> simp_all
 
 /-- **bcast_result_rule.** With `is_result=True` (used by `broadcast_to`) the target extent may
 not be stretched: accepted iff the operand extent equals the target's or is 1. -/
 theorem bcast_result_rule (l1 l2 : Int) :
     Gen.bcastOk l1 l2 true = true ↔ (l1 = l2 ∨ l1 = 1) := by
-  simp [Gen.bcastOk]
+  simp [Gen.bcastOk_iff]
 
 /-- **elemwise2_get.** The matched / unmatched mask algorithm computes the function element-wise:
 for ANY scalar function `f`, any fill values, any storage order, two operands with distinct stored
